@@ -20,7 +20,8 @@ META = {
         "under the plain 3-argument getattr value; selection removes by "
         "index in descending order; every method called on a container "
         "resolves in its MRO. Predicate and duplicate-method semantics are "
-        "not decided."),
+        "not decided."
+        ' Also: swapped / dropped option forwarding in the PLSSDesc wrappers, out-parameter dicts are told from None by identity, TRS equality / hashing (shared with C12), parallel clause purity of TRS.is_error.'),
     'families': ['SINK', 'EXC', 'TBL', 'FORWARD', 'DEADPARAM', 'SIB-DEFAULTS'],
 }
 
